@@ -382,6 +382,13 @@ def rule_e(ctx: Ctx) -> None:
             splits.append((c, literal_alternatives(c.args[0].value)))
         elif c.func.attr == "split" and c.args and isinstance(c.args[0], ast.Constant) and isinstance(c.args[0].value, str):
             splits.append((c, {c.args[0].value}))
+        elif c.func.attr == "split" and len(c.args) == 1 and isinstance(c.args[0], ast.Name) and isinstance(c.func.value, ast.Name) and c.func.value.id not in consts:
+            # separator held in a local: resolve a single constant binding, otherwise not decided
+            binds = [st.value for st in walk_no_nested(ind) if isinstance(st, ast.Assign) and len(st.targets) == 1 and norm(st.targets[0]) == c.args[0].id]
+            if len(binds) == 1 and isinstance(binds[0], ast.Constant) and isinstance(binds[0].value, str):
+                splits.append((c, {binds[0].value}))
+            else:
+                splits.append((c, None))
         elif c.func.attr == "splitlines":
             splits.append((c, {"\n", "\r", "\r\n", "\x0b", "\x0c", "\x1c", "\x1d", "\x1e", "\x85", "\u2028", "\u2029"}))
         elif c.func.attr == "split" and isinstance(c.func.value, ast.Name) and c.func.value.id in consts:
